@@ -29,9 +29,8 @@ PROPS["C01"] = {
     "kani": [],
     "unverified_callers": [
         "texlang/src/vm/mod.rs VM::run_impl dispatch (VM::begin_group/end_group are proved: three stacks in lockstep, unwraps safe)",
-        "TypedVariable::set is PROVED (texlang_savestack): the variable gets the new value, no other variable of the type moves, inside a group the save stack is told about the OVERWRITTEN value with the caller's scope (update_save_stack's contract), outside any group nothing is recorded; the variable's mutable getter is a function pointer field, modelled as an opaque value whose call is a trusted lens (rule R30), and SupportedType::update_save_stack is trusted to delegate to the proved free function for every type with a save-stack field (macro-generated). SaveStackMap::restore / SaveStackElement::restore (consuming HashMap iteration + setters through function pointers) stay covered by the bounded driver stdlib_scoping only",
+        "TypedVariable::set is PROVED (texlang_savestack): the variable gets the new value, no other variable of the type moves, inside a group the save stack is told about the OVERWRITTEN value with the caller's scope (update_save_stack's contract), outside any group nothing is recorded; the variable's mutable getter is a function pointer field, modelled as an opaque value whose call is a trusted lens (rule R30), and SupportedType::update_save_stack is trusted to delegate to the proved free function for every type with a save-stack field (macro-generated). SaveStackMap::restore is PROVED too: every variable recorded in the level gets its saved value back, every other variable of the type keeps its value, the save stack is untouched, whatever order the HashMap is iterated in (rule R9: take-any-until-empty). The macro-generated SaveStackElement::restore (calls restore on each type's field) and VM::end_group's use of it stay covered by the bounded driver stdlib_scoping only",
         "font save stack (inlined in run_impl)",
-        "SaveStackMap::restore (writes each saved value back; consuming HashMap iteration)",
         "supported_type_impl! macro: the closures passed as map_getter",
         "impl BackingContainer for Vec<Option<V>>: get, remove and insert are proved (Vec::resize_with(n, Default::default) bound to a trusted stub, rule R19); get_mut is a trusted declaration with the trait contract",
         "\\def/\\let/\\countdef/\\catcode primitives' own parsing",
